@@ -40,10 +40,11 @@ def whys(output, pid):
         if not m:
             continue
         k = int(m.group(1))
-        for mm in re.finditer(r'\[p \|-> "(\w+)", c \|-> "([^"]*)"\]', ch):
+        flat = re.sub(r"\s+", " ", ch)          # TLC wraps long records over several lines
+        for mm in re.finditer(r'\[ ?p \|-> "(\w+)", c \|-> "([^"]*)" ?\]', flat):
             if mm.group(1) in (pid, "MACHINERY"):
                 out.setdefault(k, set()).add(mm.group(1) + ":" + mm.group(2))
-        for mm in re.finditer(r'\[c \|-> "([^"]*)", p \|-> "(\w+)"\]', ch):
+        for mm in re.finditer(r'\[ ?c \|-> "([^"]*)", p \|-> "(\w+)" ?\]', flat):
             if mm.group(2) in (pid, "MACHINERY"):
                 out.setdefault(k, set()).add(mm.group(2) + ":" + mm.group(1))
     return out
